@@ -130,7 +130,7 @@ def run(ctx):
                   f"{len(r['dispatch']) if r else '?'} dispatch(es), hold since {r and r['te']}; specified {want_disp} dispatch(es), hold since {want_hold}", key=f"startup {check_now}/{expr_true}/{S}",
                   node=program.func(CYC), rel="decorators/state.py")
 
-    ctx.rule("R05.6", "legacy loops: a received notification is never treated as hold expiry; thresholds and first-event arguments", floor=4)
+    ctx.rule("R05.6", "legacy loops on scripted histories: hold neither released nor cancelled by non-evaluating / still-true notifications, cancelled by false, released with the first event's arguments; hold_false thresholds", floor=16)
     legacy_hold_rules(ctx, program, "R05.6")
     return (
         "Static, source-only: _check_new_state is abstractly interpreted on the full grid trig_ok x hold x hold_false x expression x timer states x 4 instants (512 steps) and each "
@@ -139,28 +139,120 @@ def run(ctx):
     )
 
 
+LEGACY_T0 = __import__("datetime").datetime(2024, 1, 1, 12, 0, 0)
+
+
+def legacy_run(program, uid, script, S, H, monos):
+    """One of the two legacy loops driven by a scripted queue.
+    script items: ('note', any-change matched, watched changed, expression value) | ('timeout',); monos[i] is the monotonic clock while item i is processed.
+    Result: set of (how the scenario ended, ((phase, arguments of the run / returned dictionary), ...))."""
+    import datetime as dtm
+    is_wait = uid.endswith("wait_until")
+
+    def phase(c):
+        return c.heap.get("$phase", Const(0)).v
+
+    def deliver(cfg, out, via_wait_for):
+        ph = phase(cfg)
+        if ph >= len(script):
+            out.add("raise", cfg.set("$exc", ExcV("CancelledError", "end of scenario")))
+            return []
+        item = script[ph]
+        cfg = cfg.hset("$phase", Const(ph + 1)).hset("$cur", Const(ph))
+        if item[0] == "timeout":
+            if not via_wait_for:
+                out.add("raise", cfg.set("$exc", ExcV("CancelledError", "end of scenario (no deadline pending)")))
+                return []
+            out.add("raise", cfg.set("$exc", ExcV("TimeoutError", "timeout")))
+            return []
+        info = DictV([(Const("trigger_type"), Const("state")), (Const("var_name"), Const("d.e")), (Const("value"), Const(f"v{ph}"))])
+        return [(cfg, ListV([Const("state"), ListV([DictV([(Const("d.e"), Const(f"v{ph}"))]), info])], "tuple"))]
+
+    def qget(interp, node, a, k, cfg, out):
+        if isinstance(getattr(node, "_parent", None), ast.Call):
+            return [(cfg, Sym(("coro",)))]  # the coroutine handed to asyncio.wait_for, which consumes the script
+        return deliver(cfg, out, False)
+
+    def cur(c):
+        it = script[min(c.heap.get("$cur", Const(0)).v, len(script) - 1)]
+        return it if it[0] == "note" else ("note", False, False, False)
+
+    def mono_now(cfg):
+        return monos[min(max(phase(cfg) - 1, 0), len(monos) - 1)]
+
+    def action(interp, node, a, k, cfg, out):
+        lst = cfg.heap.get("$runs", ListV(()))
+        return [(cfg.hset("$runs", ListV(lst.items + (ListV((Const(phase(cfg)), a[1] if len(a) > 1 else NONE), "tuple"),))), Const(True))]
+
+    expr = lambda i, n, a, k, c, o: [(c, Const(cur(c)[3]))]  # noqa: E731
+    summ = {"self.notify_q.get": qget, "notify_q.get": qget, "asyncio.wait_for": lambda i, n, a, k, c, o: deliver(c, o, True),
+            "dt_now": lambda i, n, a, k, c, o: [(c, Const(LEGACY_T0 + dtm.timedelta(seconds=mono_now(c))))],
+            "time.monotonic": lambda i, n, a, k, c, o: [(c, Const(mono_now(c)))],
+            "ident_any_values_changed": lambda i, n, a, k, c, o: [(c, Const(cur(c)[1]))], "ident_values_changed": lambda i, n, a, k, c, o: [(c, Const(cur(c)[2]))],
+            "self.state_trig_eval.eval": expr, "state_trig_eval.eval": expr, "self._call_expression": expr, "AstEval": lambda i, n, a, k, c, o: [(c, ObjV("expr", "AstEval"))],
+            "state_trig_eval.get_names": lambda i, n, a, k, c, o: [(c, ListV((Const("d.e"),), "set"))], "state_trig_eval.parse": lambda i, n, a, k, c, o: [(c, NONE)],
+            "STATE_RE.match": lambda i, n, a, k, c, o: [(c, NONE)], "Function.install_ast_funcs": lambda i, n, a, k, c, o: [(c, NONE)],
+            "State.notify_add": lambda i, n, a, k, c, o: [(c, Const(True))], "State.notify_del": lambda i, n, a, k, c, o: [(c, NONE)],
+            "State.notify_var_get": lambda i, n, a, k, c, o: [(c, DictV([]))], "asyncio.Queue": lambda i, n, a, k, c, o: [(c, ObjV("q", "Queue"))],
+            "self.call_action": action, "TrigTime.timer_trigger_next": lambda i, n, a, k, c, o: [(c, ListV((NONE, NONE), "tuple"))]}
+    pol = FlowPolicy(program, may_raise_all=False, cancel=False, summaries=summ)
+    pol.loop_unroll = len(script) + 3
+    if is_wait:
+        args = {"cls": ClassV("TrigTime"), "ast_ctx": ObjV("actx", "AstEval"), "state_trigger": Const("d.e == 'x'"), "state_check_now": Const(False), "time_trigger": NONE,
+                "event_trigger": NONE, "mqtt_trigger": NONE, "mqtt_trigger_encoding": NONE, "webhook_trigger": NONE, "webhook_local_only": Const(True), "webhook_methods": NONE,
+                "timeout": NONE, "state_hold": Const(S), "state_hold_false": Const(H), "__test_handshake__": NONE}
+        heap = {"actx.name": Const("file.x.f")}
+    else:
+        args = {"self": ObjV("self", "TrigInfo")}
+        heap = {"self.state_trigger": ListV([Const("x")]), "self.state_user_watch": NONE, "self.state_trig_eval": ObjV("expr", "AstEval"), "self.state_trig_ident": ListV((Const("d.e"),), "set"),
+                "self.state_trig_ident_any": ListV((), "set"), "self.active_expr": NONE, "self.event_trigger": NONE, "self.mqtt_trigger": NONE, "self.webhook_trigger": NONE,
+                "self.state_check_now": Const(False), "self.state_hold_false": Const(H), "self.state_hold": Const(S), "self.run_on_startup": Const(False), "self.time_trigger": NONE,
+                "self.have_trigger": Const(True), "self.time_active": NONE, "self.time_active_hold_off": NONE, "self.notify_q": ObjV("q", "Queue"),
+                "self.state_trigger_kwargs": DictV(()), "self.name": Const("file.x.f")}
+    out = run_flow(program, uid, pol, args=args, heap=heap)
+    res = set()
+    for k, c, d in exits(out):
+        runs = [(r.items[0].v, r.items[1]) for r in c.heap.get("$runs", ListV(())).items]
+        if is_wait and k == "return":
+            runs.append((phase(c), c.env.get("$ret")))
+        shown = []
+        for ph, v in runs:
+            val = v.get(Const("value")) if isinstance(v, DictV) else None
+            shown.append((ph, val.v if isinstance(val, Const) else repr(v)))
+        res.add(("return" if k == "return" else d.replace("raise ", ""), tuple(shown)))
+    return res
+
+
+LEGACY_SCENARIOS = [
+    # label, script, state_hold, state_hold_false, monotonic clock per item, expected runs (phase after which it happens, value of the event whose arguments are passed)
+    ("hold: attribute-only update during the hold neither releases nor cancels it", [("note", False, True, True), ("note", False, False, False), ("timeout",)], 5.0, None, [100.0, 100.1, 105.0], [(3, "v0")]),
+    ("hold: a further true evaluation neither restarts the hold nor replaces the arguments", [("note", False, True, True), ("note", False, True, True), ("timeout",)], 5.0, None, [100.0, 102.0, 105.0], [(3, "v0")]),
+    ("hold: a false evaluation cancels the pending run", [("note", False, True, True), ("note", False, True, False), ("timeout",)], 5.0, None, [100.0, 100.1, 105.0], []),
+    ("hold: expiry releases the run with the first event's arguments", [("note", False, True, True), ("timeout",)], 5.0, None, [100.0, 105.0], [(2, "v0")]),
+    ("no hold: a true evaluation runs at once", [("note", False, True, True)], None, None, [100.0], [(1, "v0")]),
+    ("hold_false: true again before H elapsed is ignored", [("note", False, True, False), ("note", False, True, True)], None, 3.0, [100.0, 101.0], []),
+    ("hold_false: true again exactly H later runs", [("note", False, True, False), ("note", False, True, True)], None, 3.0, [100.0, 103.0], [(2, "v1")]),
+    ("hold_false: true again after H runs", [("note", False, True, False), ("note", False, True, True)], None, 3.0, [100.0, 104.0], [(2, "v1")]),
+    ("hold_false: true -> true without a false period in between does not run", [("note", False, True, False), ("note", False, True, True), ("note", False, True, True)], None, 3.0, [100.0, 104.0, 105.0], [(2, "v1")]),
+]
+
+
 def legacy_hold_rules(ctx, program, rid, uids=("trigger.py::TrigInfo.trigger_watch", "trigger.py::TrigTime.wait_until")):
-    """Structural sibling rules on the legacy loops (shared with C15 for wait_until)."""
-    program = ctx.program
+    """The legacy loops interpreted on scripted notification histories (shared with C15 for wait_until)."""
     for uid in uids:
-        fl = program.func(uid)
-        ok = False
-        for t in body_walk(fl):
-            if isinstance(t, ast.Try) and any((call_name(m) or "") == "asyncio.wait_for" for m in ast.walk(ast.Module(body=t.body, type_ignores=[])) if isinstance(m, ast.Call)):
-                idx = [i for i, s in enumerate(t.body) if any((call_name(m) or "") == "asyncio.wait_for" for m in ast.walk(s) if isinstance(m, ast.Call))]
-                rest = t.body[idx[0] + 1:] if idx else []
-                if any(isinstance(s, ast.Assign) and norm(s) == "state_trig_timeout = False" for s in rest):
-                    ok = True
-        ctx.check(ok, rid, uid, "state_trig_timeout cleared when a notification arrives",
-                  msg=f"{uid}: after asyncio.wait_for returns a notification the hold-expiry flag is not cleared: any notification during a pending state_hold (even a false evaluation or an "
-                  f"attribute-only update) releases the held run immediately", key="notification clears expiry flag", node=fl, rel="trigger.py")
-        txt = norm(fl)
-        ok = ("too_soon = time.monotonic() - state_false_time < self.state_hold_false" in txt) or ("too_soon = time.monotonic() - state_false_time < state_hold_false" in txt)
-        ctx.check(ok, rid, uid, "hold_false threshold: too soon iff elapsed < H", msg=f"{uid}: the state_hold_false comparison is no longer `elapsed < H`", key="legacy hold_false threshold", node=fl, rel="trigger.py")
-        ok = "if not state_trig_waiting:" in txt and "state_trig_notify_info = notify_info" in txt
-        ws = [n for n in body_walk(fl) if isinstance(n, ast.Assign) and norm(n.targets[0]) == "state_trig_notify_info" and norm(n.value) == "notify_info"]
-        ok = ok and all(isinstance(getattr(w, "_parent", None), ast.If) and norm(w._parent.test) == "not state_trig_waiting" for w in ws) and bool(ws)
-        ctx.check(ok, rid, uid, "hold arguments recorded only when the hold starts", msg=f"{uid}: state_trig_notify_info is overwritten while a hold is pending", key="legacy hold args", node=fl, rel="trigger.py")
+        is_wait = uid.endswith("wait_until")
+        for label, script, S, H, monos, want in LEGACY_SCENARIOS:
+            if is_wait and len(want) > 1:
+                continue
+            got = legacy_run(program, uid, script, S, H, monos)
+            runs = {r for _, r in got}
+            # wait_until returns at the first run; trigger_watch keeps looping
+            exp = tuple(want[:1]) if is_wait else tuple(want)
+            ok = runs == {exp}
+            ctx.check(ok, rid, uid, f"{'wait_until' if is_wait else 'trigger_watch'}: {label}",
+                      msg=f"{uid} on the history {script} (state_hold={S}, state_hold_false={H}, clock {monos}): runs {sorted(runs)}, specified {[exp]} "
+                      f"[(n, v): released after the n-th history item with the arguments of the event whose value is v]", key=f"legacy scenario {label}", node=program.func(uid), rel="trigger.py")
+
 
 def _cycle_run(program, script, te, fe, S, H, times, check_now=False, expr_true=True, from_start=False):
     """Run _cycle with a scripted queue: ('note', func_args, any, changed, expr_true) | ('timeout',) | ('stop',)."""
